@@ -35,6 +35,7 @@ pub fn crash(depth: usize) -> Value {
     let big: String = format!("insert into t values {}", (1000..3500).map(|k| format!("({k},{})", k % 7)).collect::<Vec<_>>().join(","));
     let big_rows: Rows = { let mut r = t0.clone(); r.extend((1000..3500).map(|k: i64| vec![k.to_string(), (k % 7).to_string()])); r };
     let cases = { let mut c = cases; c.push((big.as_str(), big_rows, Some(u0.clone()), false)); c };
+
     let after: Vec<String> = vec!["select k, v from t".into(), "select k, v from u".into(), "select a from w".into(), "insert into t values (100,1000)".into(), "select k, v from t".into()];
     let again: Vec<String> = vec!["select k, v from t".into(), "select k, v from u".into(), "select a from w".into()];
     let block = 64usize;
@@ -75,6 +76,33 @@ pub fn crash(depth: usize) -> Value {
             match &b[0] { Ok(r) if sorted(r.clone()) == sorted(want.clone()) => {} other => return fail(format!("after the second recovery t = {other:?}, expected {:?}", sorted(want))) }
             if b[1].clone().ok().map(sorted) != u_got { return fail(format!("after the second recovery u = {:?}, before it {u_got:?}", b[1])); }
             if b[2].is_ok() != w_got { return fail("table w appeared / disappeared across the second recovery".into()); }
+        }
+    }
+    // DROP TABLE u, x: both tables go or none does (H37)
+    {
+        let mut base2 = base.clone();
+        base2.push("create table x(k int primary key, v int)".into());
+        base2.push("insert into x values (9,90)".into());
+        let stmt = "drop table u, x";
+        let probes: Vec<String> = vec!["select k, v from u".into(), "select k, v from x".into(), "select k, v from t".into()];
+        if let Ok((_, l0, l1)) = h::sql_session_crash(block, &base2, stmt, usize::MAX, &[], &[]) {
+            let delta = (l1 - l0) as usize;
+            let stride = match depth { 0 | 1 => (delta / 12).max(1), _ => (delta / 60).max(1) };
+            for cut in (0..=delta).step_by(stride) {
+                tried += 1;
+                let input = json!({"acknowledged": base2, "interrupted": stmt, "manifest_bytes_of_its_records": delta, "manifest_cut_after_bytes": cut, "after_recovery": probes});
+                match h::sql_session_crash(block, &base2, stmt, cut, &probes, &[]) {
+                    Ok((outs, _, _)) => {
+                        let a = &outs[base2.len() + 1..];
+                        let (u_there, x_there, t_ok) = (a[0].is_ok(), a[1].is_ok(), a[2].is_ok());
+                        if !t_ok { return json!({"found": true, "tried": tried, "input": input, "observed": format!("table t is not readable after recovery: {:?}", a[2])}); }
+                        if u_there != x_there {
+                            return json!({"found": true, "tried": tried, "input": input, "observed": format!("the interrupted DROP TABLE is half applied after recovery: u exists = {u_there}, x exists = {x_there}")});
+                        }
+                    }
+                    Err(e) => return json!({"found": true, "tried": tried, "input": input, "observed": format!("recovery failed: {e}")}),
+                }
+            }
         }
     }
     json!({"found": false, "tried": tried})
